@@ -650,6 +650,35 @@ static void eq_case(Rng & rng, const std::string & tier, long sub) {
         ::printf("#stat coopq_multi 1\n");
         return;
     }
+    if (sub % 6 == 4 && (sub / 6) % 2 == 1) { // SparseCooperativeQLearning with random partial rules, replayed by the Lean model
+        F::Factors S = randSpace(rng, 3, 3, 12), A = randSpace(rng, 3, 2, 8);
+        std::vector<FM_::QFunctionRule> rules; int nr = (int)rng.range(2, 8);
+        for (int k = 0; k < nr; ++k) {
+            FM_::QFunctionRule r;
+            r.state.first = randTag(rng, S.size()); for (auto key : r.state.first) r.state.second.push_back(rng.below(S[key]));
+            r.action.first = randTag(rng, A.size()); for (auto key : r.action.first) r.action.second.push_back(rng.below(A[key]));
+            r.value = dy(rng);
+            rules.push_back(r);
+        }
+        FM_::SparseCooperativeQLearning sq(S, A, rules, gamma, alpha);
+        Line l; l << "C14" << "sparseq"; l.nats(S); l.nats(A); l << (size_t)rules.size();
+        for (auto & r : rules) { l.nats(r.state.first); l.nats(r.state.second); l.nats(r.action.first); l.nats(r.action.second); l << r.value; }
+        l << alpha << gamma;
+        size_t nS = F::factorSpace(S), nA = F::factorSpace(A);
+        int hs = 25; l << (size_t)hs;
+        for (int t = 0; t < hs; ++t) {
+            auto s = F::toFactors(S, rng.below(nS)), s1 = F::toFactors(S, rng.below(nS)); auto a = F::toFactors(A, rng.below(nA));
+            Vector rew((long)A.size()); for (long k = 0; k < rew.size(); ++k) rew[k] = dy(rng);
+            auto a1 = sq.stepUpdateQ(s, a, s1, rew);
+            l.nats(s); l.nats(a); l.nats(s1); l.nats(a1); l.nums(rew);
+        }
+        l << "|";
+        const auto & fm = sq.getQFunctionRules();
+        l << (size_t)fm.size(); for (auto it = fm.begin(); it != fm.end(); ++it) l << it->value;
+        l.emit();
+        ::printf("#stat sparseq_multi 1\n");
+        return;
+    }
     switch (sub % 5) {
     case 0: { // JointActionLearner: joint Q == flat QLearning on toIndex(A, a); single agent: singleQ == jointQ
         size_t S = (size_t)rng.range(1, 4);
@@ -800,7 +829,7 @@ static void piek_cases(Rng & rng, const F::Factors & sp) {
 static const int kRandomQuick = 150, kRandomThorough = 3000;
 static const int kAlgQuick = 400, kAlgThorough = 60000;
 static const int kDdnQuick = 100, kDdnThorough = 12000;
-static const int kEqQuick = 100, kEqThorough = 6000;
+static const int kEqQuick = 160, kEqThorough = 6000;
 static long g_nSpaces = 0, g_nRandom = 0, g_nAlg = 0, g_nDdn = 0, g_nEq = 0;
 
 long verif::verif_ncases(const std::string & tier) {
